@@ -140,6 +140,36 @@ func keyedCases2(alphabet []int) []string {
 	return out
 }
 
+// c14Cases: first outcome x operation x backoff (after a ClearContext when afterClear)
+func c14Cases(afterClear bool) []string {
+	var out []string
+	for o0 := 0; o0 <= 2; o0++ {
+		for op := 0; op <= 5; op++ {
+			for bo := 0; bo <= 1; bo++ {
+				if afterClear {
+					if bo == 0 {
+						continue
+					}
+					out = append(out, fmt.Sprintf("o0=%d,op0=4,op1=%d", o0, op))
+				} else {
+					out = append(out, fmt.Sprintf("o0=%d,op0=%d,bo=%d", o0, op, bo))
+				}
+			}
+		}
+	}
+	return out
+}
+
+func scriptCases(n int) []string {
+	var out []string
+	for a := 0; a < n; a++ {
+		for b := 0; b < n; b++ {
+			out = append(out, fmt.Sprintf("op0=%d,op1=%d", a, b))
+		}
+	}
+	return out
+}
+
 func cat(js ...[]Job) []Job {
 	var out []Job
 	for _, j := range js {
@@ -206,13 +236,12 @@ func init() {
 	plans["C04"] = Plan{
 		Quick: []Job{
 			{H: "H_C04_Restart2", K: 36, U: 3, Prune: true, Preempt: 2, Only: "routine-overlap|wait-return|setstate-channel|panic/", TimeoutSec: 900},
-			{H: "H_C04_SetRoutine2", K: 40, U: 3, Prune: true, Preempt: 2, Only: "routine-overlap|wait-return|setstate-channel|panic/", TimeoutSec: 900},
 			{H: "H_C04_SetContext2", K: 36, U: 3, Prune: true, Preempt: 2, Only: "routine-overlap|wait-return|setstate-channel|panic/", TimeoutSec: 900},
-			{H: "H_C04_State2", K: 44, U: 3, Prune: true, Preempt: 2, Only: "routine-overlap|wait-return|setstate-channel|panic/", TimeoutSec: 900},
 		},
 		Thorough: []Job{
+			{H: "H_C04_State2", K: 44, U: 3, Prune: true, Preempt: 2, Only: "routine-overlap|wait-return|setstate-channel|panic/", TimeoutSec: 6000, QueryMs: 5000000},
 			{H: "H_C04_Restart2", K: 44, U: 3, Prune: true, Only: "routine-overlap|wait-return|setstate-channel|panic/", TimeoutSec: 3000, QueryMs: 2400000},
-			{H: "H_C04_SetRoutine2", K: 44, U: 3, Prune: true, Preempt: 3, Only: "routine-overlap|wait-return|setstate-channel|panic/", TimeoutSec: 3000, QueryMs: 2400000},
+			{H: "H_C04_SetRoutine2", K: 44, U: 3, Prune: true, Preempt: 2, Only: "routine-overlap|wait-return|setstate-channel|panic/", TimeoutSec: 3000, QueryMs: 2400000},
 			{H: "H_C04_Retry", K: 44, U: 3, Prune: true, Preempt: 2, Only: "routine-overlap|panic/", TimeoutSec: 3000},
 		},
 		Bounds:  "one driver; scripts of 2-3 supersessions issued inside one exit latency of the running instance (Restart;Restart / Restart;SetRoutine;Restart / SetContext(B);Restart / SetState;SetState;Restart), followed by ClearContext; instances run until cancelled and return whenever scheduled; <= 4 instances; K=36-44, U=3; quick tier: schedules with at most 2 preemptions (context bound), thorough: 3 / unbounded",
@@ -222,22 +251,21 @@ func init() {
 	plans["C05"] = Plan{
 		Quick: []Job{
 			{H: "H_C05_TwoDrivers", K: 44, U: 4, Prune: true, Preempt: 2, TimeoutSec: 900},
-			{H: "H_C05_StateVsRestart", K: 48, U: 4, Prune: true, Preempt: 2, TimeoutSec: 900},
-			{H: "H_C05_Survivor", K: 48, U: 4, Prune: true, Preempt: 2, TimeoutSec: 900},
+		},
+		Thorough: []Job{
+			{H: "H_C05_StateVsRestart", K: 48, U: 4, Prune: true, Preempt: 2, TimeoutSec: 6000, QueryMs: 5000000},
+			{H: "H_C05_Survivor", K: 48, U: 4, Prune: true, Preempt: 2, TimeoutSec: 6000, QueryMs: 5000000},
 		},
 		Bounds:  "StateRoutineContainer with instances that run until cancelled; two concurrent drivers (SetState || SetContext;ClearContext and SetState || RestartRoutine) and one driver with a symbolic script of 2 operations out of {SetState(2), SetState(empty), RestartRoutine, SetContext(B), ClearContext}; checks at quiescence; <= 5 instances; K=44-48, U=4; schedules with at most 2 preemptions (context bound)",
 		Outside: "more than 2 concurrent drivers, more than 2 scripted operations, instances that exit on their own (see C14)",
 	}
 	plans["C14"] = Plan{
-		Quick: []Job{
-			{H: "H_C14_Machine2", K: 60, U: 3, Prune: true, TimeoutSec: 1200},
-			{H: "H_C14_Machine2B", K: 60, U: 3, Prune: true, TimeoutSec: 1200},
-		},
-		Thorough: []Job{
-			{H: "H_C14_Machine3B", K: 80, U: 3, Prune: true, TimeoutSec: 6000, QueryMs: 3000000},
-		},
-		Bounds:  "one driver that waits for quiescence between operations; 2 (thorough 3) symbolic operations out of {RestartRoutine, SetContext(same,restart), SetContext(same), SetContext(other), ClearContext, backoff interval passes}; each of the first three instances succeeds, fails or runs until cancelled (symbolic); with and without a retry backoff; reference state machine in the harness",
-		Outside: "operations issued while an instance is between 'returned' and 'recorded' (C05 covers overlapping calls), more than 3 operations, backoff durations",
+		Quick: split(Job{H: "H_C14_Step", K: 60, U: 3, Prune: true, Preempt: 2, Fixes: c14Cases(false), TimeoutSec: 1200}, 12),
+		Thorough: cat(
+			split(Job{H: "H_C14_Machine2B", K: 80, U: 3, Prune: true, Preempt: 2, Fixes: c14Cases(true), TimeoutSec: 6000}, 12),
+		),
+		Bounds:  "transition table of the restart machine: the first instance succeeds / fails / runs until cancelled, with and without a retry backoff, then ONE operation out of {RestartRoutine, SetContext(same,restart), SetContext(same), SetContext(other), ClearContext, backoff interval passes} (36 case splits; outcomes of the instances started by the operation are symbolic); thorough: the same after a preceding ClearContext (2 operations). The driver waits for quiescence between operations; reference state machine in the harness (run count, exit-callback count and error, WaitExited result, return values); schedules with at most 2 preemptions; K=60-80",
+		Outside: "operations issued while an instance is between 'returned' and 'recorded' (C05 covers overlapping calls), histories longer than 2 operations, backoff durations",
 	}
 
 	all8 := []int{0, 1, 2, 3, 4, 5, 6, 7}
@@ -296,19 +324,29 @@ func init() {
 	}
 	plans["C16"] = Plan{
 		Quick: []Job{
-			{H: "H_C16_Once", K: 40, U: 3, TimeoutSec: 900},
+			{H: "H_C16_OnceTwo", K: 34, U: 2, Preempt: 2, TimeoutSec: 900},
+			{H: "H_C16_OnceCancel", K: 34, U: 2, Preempt: 2, Covers: 1, TimeoutSec: 900},
+			{H: "H_C16_OnceRetry", K: 40, U: 3, TimeoutSec: 900},
 			{H: "H_C16_Memo", K: 34, U: 3},
 		},
-		Bounds:  "promise.Once: 3 concurrent Resolve callers (one retries after an error), function fails on its first call or not (symbolic), first caller cancellable at any moment; memo: 3 concurrent callers, success or error; K<=40",
-		Outside: "more than 3 callers; more than one failing call",
+		Thorough: []Job{
+			{H: "H_C16_Once2", K: 34, U: 3, Preempt: 2, TimeoutSec: 6000, QueryMs: 5000000},
+			{H: "H_C16_Once", K: 40, U: 3, Preempt: 1, TimeoutSec: 6000, QueryMs: 5000000},
+		},
+		Bounds:  "promise.Once: 2 concurrent Resolve callers with a function that fails on its first call or not (symbolic); initiating caller cancellable at any moment + a live caller; sequential error-retry-success-kept; schedules with at most 2 preemptions, Resolve's retry loop unwound twice (unwinding query reported); memo: 3 concurrent callers, success or error, all schedules",
+		Outside: "more than 2 concurrent Once callers in the quick tier (thorough: 3); more than one failing call",
 	}
 	plans["C18"] = Plan{
 		Quick: []Job{
-			{H: "H_C18_Limit1", K: 40, U: 4, TimeoutSec: 900},
-			{H: "H_C18_Limit2", K: 40, U: 4, TimeoutSec: 900},
+			{H: "H_C18_Limit1Small", K: 34, U: 3, Preempt: 1, TimeoutSec: 900},
 			{H: "H_C18_Unlimited", K: 34, U: 3},
 		},
-		Bounds:  "limit 1: one initial job + Enqueue(2 jobs) || Enqueue(1 job) + WaitIdle; limit 2: Enqueue(2) || Enqueue(1) + WatchState observer; unlimited: Enqueue(2) + WaitIdle; jobs of arbitrary relative duration (they finish whenever scheduled); K<=40",
+		Thorough: []Job{
+			{H: "H_C18_Limit1Small", K: 34, U: 3, Preempt: 2, Prune: true, TimeoutSec: 3000},
+			{H: "H_C18_Limit1", K: 44, U: 4, Preempt: 1, TimeoutSec: 6000, QueryMs: 5000000},
+			{H: "H_C18_Limit2", K: 44, U: 4, Preempt: 1, TimeoutSec: 6000, QueryMs: 5000000},
+		},
+		Bounds:  "limit 1: job 0 enqueued, then Enqueue(1 job)+WaitIdle || Enqueue(1 job), schedules with at most 1 preemption (thorough: 2; and the larger limit-1 / limit-2+WatchState scenarios); unlimited: Enqueue(2) + WaitIdle, all schedules; jobs of arbitrary relative duration (they finish whenever scheduled); K<=34",
 		Outside: "more than 4 jobs, more than 2 producers",
 	}
 
@@ -319,6 +357,43 @@ func init() {
 		},
 		Bounds:  "one key; (a) routine fails once, SetKey(k,false) (symbolic) lands while the retry timer is pending, then the backoff interval passes; (b) two RestartRoutine calls inside one exit latency, then ClearContext; schedules with at most 2 preemptions; K=40-48",
 		Outside: "more than one key, more than 2 restarts",
+	}
+	plans["C08"] = Plan{
+		Quick: []Job{
+			{H: "H_C08_Error", K: 40, U: 3, Prune: true},
+			{H: "H_C08_Script", K: 60, U: 3, Prune: true, Preempt: 2, Fixes: []string{"op0=0,op1=4", "op0=4,op1=0"}, TimeoutSec: 900},
+			{H: "H_C08_Script", K: 60, U: 3, Prune: true, Preempt: 2, Fixes: []string{"op0=2,op1=0", "op0=1,op1=3"}, TimeoutSec: 900},
+		},
+		Thorough: cat(
+			[]Job{
+				{H: "H_C08_ReleasedRace", K: 60, U: 3, Prune: true, Preempt: 2, TimeoutSec: 3000},
+				{H: "H_C08_Slow", K: 60, U: 3, Prune: true, Preempt: 2, TimeoutSec: 3000},
+			},
+			split(Job{H: "H_C08_Script", K: 60, U: 3, Prune: true, Preempt: 2, Fixes: scriptCases(5), TimeoutSec: 6000}, 8),
+		),
+		Bounds:  "RefCount with a target container and release functions that check the obligations; quick: resolver error + 4 scripts of 2 operations out of {release ref, add+release second ref, SetContext(B), ClearContext, released()} with keep-unreferenced symbolic; thorough: all 25 scripts, released() racing the last Release, slow resolver superseded; schedules with at most 2 preemptions; K=60",
+		Outside: "more than 2 references / 3 resolver calls; 'shortly after' is read as 'by quiescence'",
+	}
+	plans["C13"] = Plan{
+		Quick: []Job{
+			{H: "H_C13_IO", K: 40, U: 3, Race: true, Only: "race/"},
+			{H: "H_C13_Keyed", K: 40, U: 3, Race: true, Only: "race/", Prune: true, Preempt: 2},
+			{H: "H_C13_KeyedRef", K: 40, U: 3, Race: true, Only: "race/", Prune: true, Preempt: 2},
+			{H: "H_C13_RefCount", K: 40, U: 3, Race: true, Only: "race/", Prune: true, Preempt: 2},
+			{H: "H_C13_Routine", K: 40, U: 3, Race: true, Only: "race/", Prune: true, Preempt: 2},
+			{H: "H_C17_ErrNotLost", K: 24, U: 3, Race: true, Only: "race/"},
+			{H: "H_C11_Promise_Await", K: 34, U: 3, Race: true, Only: "race/"},
+			{H: "H_C15_Swap", K: 34, U: 3, Race: true, Only: "race/"},
+			{H: "H_C12_LinkedList", K: 34, U: 3, Race: true, Only: "race/"},
+			{H: "H_C16_Memo", K: 34, U: 3, Race: true, Only: "race/"},
+			{H: "H_C03_WaitErr", K: 30, U: 3, Race: true, Only: "race/"},
+			{H: "H_C01_Mutex3", K: 26, U: 3, Race: true, Only: "race/"},
+			{H: "H_C05_TwoDrivers", K: 44, U: 4, Race: true, Only: "race/", Prune: true, Preempt: 2, TimeoutSec: 900},
+			{H: "H_C10_WaitWithReleased", K: 36, U: 3, Race: true, Only: "race/", Prune: true, TimeoutSec: 900},
+			{H: "H_C18_Unlimited", K: 34, U: 3, Race: true, Only: "race/"},
+		},
+		Bounds:  "client programs: the dedicated H_C13_* harnesses (iocloser Read/Write||Close, SizeReadWriter Read||Write||TotalSize, Keyed Set||Remove+GetKeys, KeyedRefCount AddKeyRef||Release||RemoveKey, RefCount AddRef/Release||SetContext, RoutineContainer SetRoutine||SetContext||RestartRoutine) plus one harness of each other concurrent type (ccall, Promise, CContainer, LinkedList, MemoizeFunc, Broadcast, csync.Mutex, StateRoutineContainer, WaitWithReleased, ConcurrentQueue); violation = a schedule with two co-pending conflicting plain accesses to one cell, at least one in library code",
+		Outside: "'every client program' is this finite set of programs; weak-memory effects (the model is sequentially consistent: an SC execution with two co-enabled conflicting accesses exists iff the program has a data race)",
 	}
 	plans["C09"] = Plan{
 		Quick: []Job{
